@@ -27,7 +27,7 @@ def run(ctx):
         gpar.account(ctx, res[name], "mc", kw)
     try:
         recs = ctx.go_test(".", ["cl_", "c38_"], "^TestVerifC38", timeout=1700,
-                           env={"VERIF_C38_TRACES": ctx.pick(24, 240), "VERIF_C38_TINY": ctx.pick(400, 4000),
+                           env={"VERIF_C38_TRACES": ctx.pick(24, 120), "VERIF_C38_TINY": ctx.pick(400, 2000),
                                 "VERIF_C38_HELD": ctx.pick(3, 20)})
     except Infra as e:
         # The client's own goroutines (writer / reader / worker) cannot be guarded by the harness:
